@@ -8,8 +8,8 @@ from bsv.props._x1 import spec
 ID = "C31"
 LEVEL = "model_checking"
 RULE = (
-    "X1 + histories: a real SuspendBoolHigh(sig, sleep in {0,2}); every history of <= 2 (quick, with injections) / <= 3 (quick, no "
-    "injections; thorough with injections) / <= 4 (thorough, no injections) operations from {install, remove via RE, remove() again on "
+    "X1 + histories: a real SuspendBoolHigh(sig, sleep in {0,2}); every history of <= 2 (quick, with injections) / <= 3 (thorough "
+    "with injections) / <= 4 (quick and thorough, no injections) operations from {install, remove via RE, remove() again on "
     "the suspender, sig.put(trip), sig.put(ok)} before RE(plan), and inside RE(plan) one (thorough: two) of {sig.put(ok), sig.put(trip), "
     "remove} at every loop position. Reference model: (installed, signal value, tripped) folded over the history. Oracle: tripped at "
     "the start => the first message executed is the engine's wait_for and no plan message executes before a release (sig.put(ok) or "
@@ -40,7 +40,7 @@ def _hist2(n, ops="TtOoRr"):
 MENU2 = [("put", "sa", 0), ("put", "sb", 0), ("call", "R"), ("call", "r")]
 SPECS = {
     "quick": [spec("suspreal", MENU, bound=1, pre=h, sleep=2) for h in _hist(2)]
-    + [spec("suspreal", [], bound=0, pre=h, sleep=0) for h in _hist(3)]
+    + [spec("suspreal", [], bound=0, pre=h, sleep=0) for h in _hist(4)]
     # two suspenders on one engine: every history of <= 3 trips/returns/removals, both release orders of the environment
     + [spec("susp2", [], bound=0, pre=h, order=o, ho=ho) for h in _hist2(3) for o in ("ab", "ba") for ho in ("ab", "ba")]
     + [spec("susp2", MENU2, bound=1, pre=h, order=o, ho=ho) for h in ("T", "t", "Tt", "tT") for o in ("ab", "ba") for ho in ("ab", "ba")],
